@@ -90,7 +90,9 @@ CHECKS["C18"] = {
             "RefPercent (each well-formed escape decoded once; a request with a malformed escape may be refused with "
             "400), and a 200 answer never carries the marker of a file outside the html root. c: templates = optional "
             "constant prefix + permutation of a non-empty subset of %circuit/%name/%field separated by constants from "
-            "{'/', 'ebusd/', '/x/'} + optional suffix, in %x and %{x} notation, that parse and are matchable; x identifier "
+            "{'/', 'ebusd/', '/x/', '1/' (a digit directly behind a variable)} + optional suffix ('/s', '2'), in %x and %{x} notation; "
+            "a template that names only the three known fields (a variable without braces extends over letters and '_') must be "
+            "accepted; those that are matchable x identifier "
             "triples over {a,ab,b_1} (thorough + x, ebusd; field also empty when last) x {get,set,list}: "
             "match(get(c,n,f)) after stripping the direction the way MqttHandler does returns the triple. "
             "d (delivery): every request of a and b is additionally handed to RequestImpl::add with CRLF line ends whole, "
